@@ -221,36 +221,36 @@ theorem frame_list_step (W : World) (f : Nat) (ih : FrameAt W f) :
         · obtain ⟨o, ho, _⟩ := prepend_ok h
           exact hf2.trans (ih.list _ _ _ _ _ hs2 ho)
         · split at h
-          · obtain ⟨rs, st1, h1, hk⟩ := bindR_ok h
-            obtain ⟨o, ho, _⟩ := prepend_ok hk
-            have f1 := ih.vfor _ _ _ _ _ _ _ _ hs2 h1
-            exact hf2.trans (f1.trans (ih.list _ _ _ _ _ (f1.1.nonempty hs2) ho))
+          · exact hf2.trans (ih.list _ _ _ _ _ hs2 h)
           · split at h
-            · obtain ⟨res, st1, h1, hk⟩ := bindR_ok h
+            · obtain ⟨rs, st1, h1, hk⟩ := bindR_ok h
               obtain ⟨o, ho, _⟩ := prepend_ok hk
-              have f1 := ih.slot _ _ _ _ _ _ hs2 h1
+              have f1 := ih.vfor _ _ _ _ _ _ _ _ hs2 h1
               exact hf2.trans (f1.trans (ih.list _ _ _ _ _ (f1.1.nonempty hs2) ho))
             · split at h
-              · obtain ⟨ps, h1, hk⟩ := bindE_ok h
-                split at hk
-                · exact hf2.trans (ih.list _ _ _ _ _ hs2 hk)
-                · obtain ⟨res, st1, h2, hk2⟩ := bindR_ok hk
-                  obtain ⟨o, ho, _⟩ := prepend_ok hk2
-                  have f1 := ih.asElem _ _ _ _ _ _ _ hs2 h2
-                  exact hf2.trans (f1.trans (ih.list _ _ _ _ _ (f1.1.nonempty hs2) ho))
-                · split at hk
-                  · split at hk
-                    · exact hf2.trans (ih.list _ _ _ _ _ hs2 hk)
-                    · rename_i st3 hg
-                      have fg := onceGate_frame hg
-                      obtain ⟨res, st1, h2, hk2⟩ := bindR_ok hk
-                      obtain ⟨o, ho, _⟩ := prepend_ok hk2
-                      have hs3 := fg.1.nonempty hs2
-                      have f1 := ih.asElem _ _ _ _ _ _ _ hs3 h2
-                      exact hf2.trans (fg.trans (f1.trans (ih.list _ _ _ _ _ (f1.1.nonempty hs3) ho)))
-                  · exact hf2.trans (ih.list _ _ _ _ _ hs2 hk)
+              · obtain ⟨res, st1, h1, hk⟩ := bindR_ok h
+                obtain ⟨o, ho, _⟩ := prepend_ok hk
+                have f1 := ih.slot _ _ _ _ _ _ hs2 h1
+                exact hf2.trans (f1.trans (ih.list _ _ _ _ _ (f1.1.nonempty hs2) ho))
               · split at h
-                · exact hf2.trans (ih.list _ _ _ _ _ hs2 h)
+                · obtain ⟨ps, h1, hk⟩ := bindE_ok h
+                  split at hk
+                  · exact hf2.trans (ih.list _ _ _ _ _ hs2 hk)
+                  · obtain ⟨res, st1, h2, hk2⟩ := bindR_ok hk
+                    obtain ⟨o, ho, _⟩ := prepend_ok hk2
+                    have f1 := ih.asElem _ _ _ _ _ _ _ hs2 h2
+                    exact hf2.trans (f1.trans (ih.list _ _ _ _ _ (f1.1.nonempty hs2) ho))
+                  · split at hk
+                    · split at hk
+                      · exact hf2.trans (ih.list _ _ _ _ _ hs2 hk)
+                      · rename_i st3 hg
+                        have fg := onceGate_frame hg
+                        obtain ⟨res, st1, h2, hk2⟩ := bindR_ok hk
+                        obtain ⟨o, ho, _⟩ := prepend_ok hk2
+                        have hs3 := fg.1.nonempty hs2
+                        have f1 := ih.asElem _ _ _ _ _ _ _ hs3 h2
+                        exact hf2.trans (fg.trans (f1.trans (ih.list _ _ _ _ _ (f1.1.nonempty hs3) ho)))
+                    · exact hf2.trans (ih.list _ _ _ _ _ hs2 hk)
                 · split at h
                   · obtain ⟨res, st1, h1, hk⟩ := bindR_ok h
                     obtain ⟨o, ho, _⟩ := prepend_ok hk
